@@ -20,6 +20,8 @@ theorem rejectMsg_ok (cfg : Cfg) (m : InMsg) (r : Nat) (t : Option Nat) (b : Boo
     | exact ⟨rfl, appFirst_admin _ (by decide)⟩
 theorem gapFill_ok (a b : Int) : ((gapFill a b).kind == "5") = false ∧ appFirst (gapFill a b) = false :=
   ⟨rfl, appFirst_admin _ (by show isAdminKind "4" = true; decide)⟩
+theorem gapFillR_ok (s : Sess) (a b : Int) : ((gapFillR s a b).kind == "5") = false ∧ appFirst (gapFillR s a b) = false :=
+  ⟨rfl, appFirst_admin _ (by show isAdminKind "4" = true; decide)⟩
 theorem resent_ok (m : OutMsg) (h : isAdminKind m.kind = false) : ((resent m).kind == "5") = false ∧ appFirst (resent m) = false := by
   refine ⟨?_, ?_⟩
   · show (m.kind == "5") = false
@@ -72,12 +74,18 @@ theorem qpeel_sendInReplyTo (m : OutMsg) (hk5 : (m.kind == "5") = false) (ha : a
     P b g0 s (sendInReplyTo x m) := h.pn (pn_sendInReplyTo g0 x m hk5 ha)
 theorem qpeel_heartbeat (f : Fields) (h : P b g0 s x) : P b g0 s (sendInReplyTo x (mkOut "0" f)) :=
   qpeel_sendInReplyTo _ rfl (appFirst_admin _ rfl) h
+theorem qpeel_heartbeatRe (f : Fields) (m : InMsg) (h : P b g0 s x) : P b g0 s (sendInReplyTo x ((mkOut "0" f).inReplyTo m)) :=
+  qpeel_sendInReplyTo _ rfl (appFirst_admin _ rfl) h
 theorem qpeel_testRequest (f : Fields) (h : P b g0 s x) : P b g0 s (sendInReplyTo x (mkOut "1" f)) :=
   qpeel_sendInReplyTo _ rfl (appFirst_admin _ rfl) h
 theorem qpeel_doReject (m : InMsg) (r : Nat) (t : Option Nat) (bz : Bool) (h : P b g0 s x) : P b g0 s (doReject x m r t bz) :=
   h.pn (pn_sendInReplyTo g0 x _ (rejectMsg_ok x.cfg m r t bz).1 (rejectMsg_ok x.cfg m r t bz).2)
 theorem qpeel_sendLogonInReplyTo (r : Bool) (h : P b g0 s x) : P b g0 s (sendLogonInReplyTo x r) :=
   h.pn (pn_dropAndSend_logon g0 x _ rfl)
+theorem qpeel_sendLogonRe (r : Bool) (m : InMsg) (h : P b g0 s x) : P b g0 s (sendLogonRe x r m) :=
+  h.pn (pn_dropAndSend_logon g0 x _ rfl)
+theorem qpeel_setReplyLast (v : Option Int) (h : P b g0 s x) : P b g0 s (x.setReplyLast v) :=
+  h.pn ((Sil.of_eq (s := x) (s' := x.setReplyLast v) ⟨rfl, rfl, rfl, rfl, rfl⟩ rfl rfl).pn g0)
 theorem qpeel_enqueueAndSend (m : OutMsg) (hn : (s.st.loggedOn || s.st.isLogout) = true) (hk5 : (m.kind == "5") = false)
     (ha : appFirst m = false) (h : P b g0 s x) : P b g0 s (enqueueAndSend x m) :=
   h.pn (pn_enqueueAndSend g0 x m (by rw [h.fr.st]; exact hn) hk5 ha)
@@ -89,6 +97,11 @@ theorem qpeel_sendInReplyTo_logout (hst : s.st.isLogon = false) (h : P false g0 
   h.pl (pl_sendLogout g0 x (by rw [h.fr.st]; exact hst))
 theorem qpeel_dropAndSend_logout (h : P false g0 s x) : P false g0 s (dropAndSend x (mkOut "5" [])) :=
   h.pl (pl_dropAndSend_logout g0 x)
+theorem qpeel_sendInReplyTo_logoutRe (m : InMsg) (hst : s.st.isLogon = false) (h : P false g0 s x) :
+    P false g0 s (sendInReplyTo x ((mkOut "5" []).inReplyTo m)) :=
+  h.pl (pl_sendLogoutMsg g0 x _ rfl (by rw [h.fr.st]; exact hst))
+theorem qpeel_dropAndSend_logoutRe (m : InMsg) (h : P false g0 s x) : P false g0 s (dropAndSend x ((mkOut "5" []).inReplyTo m)) :=
+  h.pl (pl_dropAndSend_logoutMsg g0 x _ rfl)
 theorem qpeel_ite (c : Prop) [Decidable c] {y z : Sess} (hy : P b g0 s y) (hz : P b g0 s z) : P b g0 s (if c then y else z) := by
   split <;> assumption
 theorem qpeel_sendResendRequest (bq e : Int) (h : P b g0 s x) : P b g0 s (sendResendRequest x bq e).1 := by
@@ -115,6 +128,11 @@ macro_rules | `(tactic| q_step) => `(tactic| apply qpeel_testRequest)
 macro_rules | `(tactic| q_step) => `(tactic| apply qpeel_sendInReplyTo_logout)
 macro_rules | `(tactic| q_step) => `(tactic| apply qpeel_doReject)
 macro_rules | `(tactic| q_step) => `(tactic| apply qpeel_sendLogonInReplyTo)
+macro_rules | `(tactic| q_step) => `(tactic| apply qpeel_sendLogonRe)
+macro_rules | `(tactic| q_step) => `(tactic| apply qpeel_setReplyLast)
+macro_rules | `(tactic| q_step) => `(tactic| apply qpeel_heartbeatRe)
+macro_rules | `(tactic| q_step) => `(tactic| apply qpeel_sendInReplyTo_logoutRe)
+macro_rules | `(tactic| q_step) => `(tactic| apply qpeel_dropAndSend_logoutRe)
 macro_rules | `(tactic| q_step) => `(tactic| apply qpeel_sendResendRequest)
 macro_rules | `(tactic| q_step) => `(tactic| apply qpeel_sendLogout)
 macro_rules | `(tactic| q_step) => `(tactic| apply qpeel_initiateLogout)
@@ -293,15 +311,15 @@ theorem pn_resendLoop (g0 : G8) (s : Sess) (a b : Int) (l : List (Int × OutMsg)
       · rename_i hadm _
         have hadm' : isAdminKind m.kind = false := by simpa using hadm
         have h2 := fun x hx => pn_enqueueAndSend g0 x (resent m) hx (resent_ok m hadm').1 (resent_ok m hadm').2
-        have h1 := fun x hx => pn_enqueueAndSend g0 x (gapFill a n) hx (gapFill_ok a n).1 (gapFill_ok a n).2
+        have h1 := fun x hx => pn_enqueueAndSend g0 x (gapFillR s a n) hx (gapFillR_ok s a n).1 (gapFillR_ok s a n).2
         try dsimp only
         split
         · have e1 := h1 s hn
-          have hn1 : ((enqueueAndSend s (gapFill a n)).st.loggedOn || (enqueueAndSend s (gapFill a n)).st.isLogout) = true := by
+          have hn1 : ((enqueueAndSend s (gapFillR s a n)).st.loggedOn || (enqueueAndSend s (gapFillR s a n)).st.isLogout) = true := by
             rw [e1.fr.st]; exact hn
           have e2 := h2 _ hn1
-          have hn2 : ((enqueueAndSend (enqueueAndSend s (gapFill a n)) (resent m)).st.loggedOn ||
-              (enqueueAndSend (enqueueAndSend s (gapFill a n)) (resent m)).st.isLogout) = true := by
+          have hn2 : ((enqueueAndSend (enqueueAndSend s (gapFillR s a n)) (resent m)).st.loggedOn ||
+              (enqueueAndSend (enqueueAndSend s (gapFillR s a n)) (resent m)).st.isLogout) = true := by
             rw [e2.fr.st]; exact hn1
           exact (e1.trans e2).trans (ih _ _ _ hn2)
         · have e2 := h2 s hn
@@ -315,13 +333,13 @@ theorem pn_resendMessages (g0 : G8) (s : Sess) (b e : Int) (hn : (s.st.loggedOn 
   split
   · exact PN.refl g0 s
   · split
-    · exact pn_enqueueAndSend g0 s _ hn (gapFill_ok _ _).1 (gapFill_ok _ _).2
+    · exact pn_enqueueAndSend g0 s _ hn (gapFillR_ok _ _ _).1 (gapFillR_ok _ _ _).2
     · have hl := pn_resendLoop g0 s b b (s.store.range b e) hn
       generalize resendLoop s b b (s.store.range b e) = r at hl
       obtain ⟨s', x, y⟩ := r
       try dsimp only at hl ⊢
       split
-      · exact hl.trans (pn_enqueueAndSend g0 s' _ (by rw [hl.fr.st]; exact hn) (gapFill_ok _ _).1 (gapFill_ok _ _).2)
+      · exact hl.trans (pn_enqueueAndSend g0 s' _ (by rw [hl.fr.st]; exact hn) (gapFillR_ok _ _ _).1 (gapFillR_ok _ _ _).2)
       · exact hl
 
 theorem qpeel_resendMessages {b : Bool} {g0 : G8} {s x : Sess} (bq e : Int) (hn : (s.st.loggedOn || s.st.isLogout) = true)
@@ -527,9 +545,9 @@ theorem ready_logonReply (g0 : G8) (s : Sess) (m : InMsg) (flag : Bool) (hW : WK
       rw [← hx]; repeat' split
       all_goals exact ⟨rfl, rfl, rfl, rfl, rfl⟩
     intro ho
-    have hfr2 : Fr x (sendLogonInReplyTo x flag) := fr_dropAndSend x _
+    have hfr2 : Fr x (sendLogonRe x flag m) := fr_dropAndSend x _
     have hox : x.out = true := by rw [← hfr2.out]; exact ho
-    have := dropAndSend_admin g0 x (logonMsg x flag) rfl hox
+    have := dropAndSend_admin g0 x ((logonMsg x flag).inReplyTo m) rfl hox
     exact ⟨this.2, fun _ => this.1⟩
   · rename_i hini
     have hini' : s.cfg.initiator = true := by simpa using hini
